@@ -3,7 +3,12 @@
 package vam
 
 import (
+	"reflect"
+
+	"github.com/vkngwrapper/arsenal/memutils"
+	"github.com/vkngwrapper/arsenal/memutils/defrag"
 	"github.com/vkngwrapper/arsenal/memutils/metadata"
+	"github.com/vkngwrapper/arsenal/vam/internal/vulkan"
 )
 
 // This file is only compiled with the `verif` build tag. It exposes unexported pieces of
@@ -30,4 +35,227 @@ func VerifGranularityRegions(h metadata.GranularityCheck) (types []uint32, count
 		counts = append(counts, r.allocCount)
 	}
 	return types, counts
+}
+
+// ---------------------------------------------------------------------------------------------
+// Accessors used by the vam-level harness (/verif/harness/cmd/vamh). Read-only.
+// ---------------------------------------------------------------------------------------------
+
+// VerifBlock is a snapshot of one deviceMemoryBlock of a block list.
+type VerifBlock struct {
+	ID            int
+	MemoryHandle  uintptr // VkDeviceMemory handle of the block's memory
+	Size          int
+	Empty         bool
+	AllocCount    int
+	SumFreeSize   int
+	MapReferences int  // SynchronizedMemory.mapReferences (without the hysteresis extra mapping)
+	ExtraMapping  bool // SynchronizedMemory.extraMapping
+	Mapped        bool // SynchronizedMemory.mapData != nil
+	DelayCounter  int
+	StatusCounter int
+}
+
+// VerifBlockListInfo is a snapshot of the parameters of a memoryBlockList.
+type VerifBlockListInfo struct {
+	MemoryTypeIndex        int
+	PreferredBlockSize     int
+	MinBlockCount          int
+	MaxBlockCount          int
+	BufferImageGranularity int
+	ExplicitBlockSize      bool
+	Algorithm              int
+	MinAllocationAlignment uint
+	IncrementalSort        bool
+	NextBlockID            int
+}
+
+func verifSyncMemFields(m *vulkan.SynchronizedMemory) (refs int, extra bool, delay int, status int) {
+	if m == nil {
+		return 0, false, 0, 0
+	}
+	v := reflect.ValueOf(m).Elem()
+	refs = int(v.FieldByName("mapReferences").Int())
+	extra = v.FieldByName("extraMapping").Bool()
+	delay = int(v.FieldByName("delayCounter").Uint())
+	status = int(v.FieldByName("statusCounter").Int())
+	return
+}
+
+func verifBlocks(l *memoryBlockList) []VerifBlock {
+	l.mutex.RLock()
+	defer l.mutex.RUnlock()
+	out := make([]VerifBlock, 0, len(l.blocks))
+	for _, b := range l.blocks {
+		vb := VerifBlock{ID: b.id}
+		if b.memory != nil {
+			vb.MemoryHandle = uintptr(b.memory.VulkanDeviceMemory().Handle())
+			vb.Mapped = b.memory.MappedData() != nil
+			vb.MapReferences, vb.ExtraMapping, vb.DelayCounter, vb.StatusCounter = verifSyncMemFields(b.memory)
+		}
+		if b.metadata != nil {
+			vb.Size = b.metadata.Size()
+			vb.Empty = b.metadata.IsEmpty()
+			vb.AllocCount = b.metadata.AllocationCount()
+			vb.SumFreeSize = b.metadata.SumFreeSize()
+		}
+		out = append(out, vb)
+	}
+	return out
+}
+
+func verifListInfo(l *memoryBlockList) VerifBlockListInfo {
+	return VerifBlockListInfo{
+		MemoryTypeIndex:        l.memoryTypeIndex,
+		PreferredBlockSize:     l.preferredBlockSize,
+		MinBlockCount:          l.minBlockCount,
+		MaxBlockCount:          l.maxBlockCount,
+		BufferImageGranularity: l.bufferImageGranularity,
+		ExplicitBlockSize:      l.explicitBlockSize,
+		Algorithm:              int(l.algorithm),
+		MinAllocationAlignment: l.minAllocationAlignment,
+		IncrementalSort:        l.incrementalSort,
+		NextBlockID:            l.nextBlockId,
+	}
+}
+
+// VerifDefaultBlockList returns the blocks of the default block list of a memory type, in list order.
+// ok is false when the allocator has no block list for that type.
+func VerifDefaultBlockList(a *Allocator, memoryTypeIndex int) (info VerifBlockListInfo, blocks []VerifBlock, ok bool) {
+	if memoryTypeIndex < 0 || memoryTypeIndex >= len(a.memoryBlockLists) || a.memoryBlockLists[memoryTypeIndex] == nil {
+		return VerifBlockListInfo{}, nil, false
+	}
+	l := a.memoryBlockLists[memoryTypeIndex]
+	return verifListInfo(l), verifBlocks(l), true
+}
+
+// VerifPoolBlockList returns the blocks of a custom pool's block list, in list order.
+func VerifPoolBlockList(p *Pool) (info VerifBlockListInfo, blocks []VerifBlock) {
+	return verifListInfo(&p.blockList), verifBlocks(&p.blockList)
+}
+
+// VerifValidateBlockLists runs deviceMemoryBlock.Validate (vam's own consistency check, which includes
+// the memutils metadata validation) on every block of every default list and every custom pool.
+func VerifValidateBlockLists(a *Allocator) error {
+	check := func(l *memoryBlockList) error {
+		l.mutex.RLock()
+		defer l.mutex.RUnlock()
+		for _, b := range l.blocks {
+			if err := b.Validate(); err != nil {
+				return err
+			}
+		}
+		return nil
+	}
+	for _, l := range a.memoryBlockLists {
+		if l != nil {
+			if err := check(l); err != nil {
+				return err
+			}
+		}
+	}
+	a.poolsMutex.RLock()
+	defer a.poolsMutex.RUnlock()
+	for p := a.pools; p != nil; p = p.next {
+		if err := check(&p.blockList); err != nil {
+			return err
+		}
+		if err := p.dedicatedAllocations.Validate(); err != nil {
+			return err
+		}
+	}
+	for _, d := range a.dedicatedAllocations {
+		if d != nil {
+			if err := d.Validate(); err != nil {
+				return err
+			}
+		}
+	}
+	return nil
+}
+
+// VerifDedicatedCount returns the number of registered dedicated allocations of the default
+// list of a memory type (-1 when the type has no list).
+func VerifDedicatedCount(a *Allocator, memoryTypeIndex int) int {
+	if memoryTypeIndex < 0 || memoryTypeIndex >= len(a.dedicatedAllocations) || a.dedicatedAllocations[memoryTypeIndex] == nil {
+		return -1
+	}
+	return a.dedicatedAllocations[memoryTypeIndex].count
+}
+
+// VerifPoolDedicatedCount returns the number of registered dedicated allocations of a custom pool.
+func VerifPoolDedicatedCount(p *Pool) int { return p.dedicatedAllocations.count }
+
+// VerifHeapBudget returns what Allocator would report for a heap: the four counters plus usage and
+// budget. NOTE: with VK_EXT_memory_budget active this calls DeviceMemoryProperties.HeapBudget, which
+// refreshes the budget from the driver after more than 30 operations (exactly as any public caller would).
+func VerifHeapBudget(a *Allocator, heapIndex int) (stats memutils.Statistics, usage int, budget int) {
+	var b vulkan.Budget
+	a.deviceMemory.HeapBudget(heapIndex, &b)
+	return b.Statistics, b.Usage, b.Budget
+}
+
+// VerifDeviceMemoryCount returns the allocator's count of live VkDeviceMemory objects.
+func VerifDeviceMemoryCount(a *Allocator) int { return int(a.deviceMemory.AllocationCount()) }
+
+// VerifGlobalMemoryTypeBits returns the allocator's global memory type mask.
+func VerifGlobalMemoryTypeBits(a *Allocator) uint32 { return a.globalMemoryTypeBits }
+
+// VerifPoolCount returns the number of pools linked into the allocator.
+func VerifPoolCount(a *Allocator) int {
+	a.poolsMutex.RLock()
+	defer a.poolsMutex.RUnlock()
+	n := 0
+	for p := a.pools; p != nil; p = p.next {
+		n++
+	}
+	return n
+}
+
+// VerifAllocation is a snapshot of the unexported state of an Allocation.
+type VerifAllocation struct {
+	Allocated         bool // memory != nil
+	Type              int  // 0 none, 1 block, 2 dedicated
+	SuballocationType int
+	PersistentMap     bool
+	MappingAllowed    bool
+	Pool              *Pool // parent pool or nil
+	BlockID           int   // id of the owning block (-1 for non-block allocations)
+	BlockMemoryHandle uintptr // handle of blockData.block.memory (0 for non-block allocations)
+	MemoryHandle      uintptr // handle of Allocation.memory (0 when not allocated)
+	Handle            uint64  // metadata handle
+}
+
+// VerifAllocationInfo returns a snapshot of an Allocation without panicking on freed allocations.
+func VerifAllocationInfo(alloc *Allocation) VerifAllocation {
+	v := VerifAllocation{
+		Allocated:         alloc.memory != nil,
+		Type:              int(alloc.allocationType),
+		SuballocationType: int(alloc.suballocationType),
+		PersistentMap:     alloc.isPersistentMap(),
+		MappingAllowed:    alloc.IsMappingAllowed(),
+		BlockID:           -1,
+	}
+	if alloc.memory != nil {
+		v.MemoryHandle = uintptr(alloc.memory.VulkanDeviceMemory().Handle())
+	}
+	switch alloc.allocationType {
+	case allocationTypeBlock:
+		if alloc.blockData.block != nil {
+			v.Pool = alloc.blockData.block.parentPool
+			v.BlockID = alloc.blockData.block.id
+			if alloc.blockData.block.memory != nil {
+				v.BlockMemoryHandle = uintptr(alloc.blockData.block.memory.VulkanDeviceMemory().Handle())
+			}
+		}
+		v.Handle = uint64(alloc.blockData.handle)
+	case allocationTypeDedicated:
+		v.Pool = alloc.dedicatedData.parentPool
+	}
+	return v
+}
+
+// VerifDefragState returns the unexported progress state of a DefragmentationContext.
+func VerifDefragState(c *DefragmentationContext) (blockListProgress int, contexts int, stats defrag.DefragmentationStats) {
+	return c.blockListProgress, len(c.context), c.stats
 }
